@@ -564,6 +564,70 @@ fn fills_keep_what_is_not_pixels(rng: &mut Rng, rep: &mut Report) {
     }
 }
 
+/// Pages over the caller's bytes whose pixel area is ALL ONE VALUE BUT FOR ONE BYTE (at every position in turn), then
+/// filled with that value, and with the other: afterwards every byte of the pixel area holds the fill — a shortcut that
+/// looks at some of the bytes and concludes there is nothing to do is wrong exactly here.
+fn nearly_uniform_pages(rep: &mut Report) {
+    for (w, h) in [(90u32, 7u32), (112, 16), (40, 12), (30, 10), (23, 10), (96, 8), (17, 9), (25, 1)] {
+        let cb = refs::col_bytes(h);
+        let l = (w as usize) * cb;
+        let len = refs::padded_len(w, h);
+        let full_col: Vec<u8> = (0..cb).map(|b| (0..8u32).filter(|k| (b as u32) * 8 + k < h).fold(0u8, |m, k| m | (1 << k))).collect();
+        for base_lit in [false, true] {
+            for pos in 0..l {
+                for owned in [false, true] {
+                    if owned && pos % 5 != 0 {
+                        continue;
+                    }
+                    let mut given = vec![0u8; len];
+                    given[0] = 9;
+                    given[1] = 0x10;
+                    for i in 0..l {
+                        given[4 + i] = if base_lit { full_col[i % cb] } else { 0 };
+                    }
+                    for b in given[4 + l..].iter_mut() {
+                        *b = 0xFF;
+                    }
+                    // the odd byte: one pixel of it differs from the rest
+                    given[4 + pos] ^= 0x01;
+                    let r = catch(std::panic::AssertUnwindSafe(|| -> Result<Option<String>, String> {
+                        let mut p = if owned { Page::from_bytes(w, h, given.clone()) } else { Page::from_bytes(w, h, &given[..]) }.map_err(|e| e.to_string())?;
+                        for fill in [base_lit, !base_lit] {
+                            p.set_all_pixels(fill);
+                            let x = (pos / cb) as u32;
+                            let y = ((pos % cb) * 8) as u32;
+                            if p.get_pixel(x, y) != fill {
+                                return Ok(Some(format!("after set_all_pixels({}) pixel ({},{}) — the one that differed — reads {}", fill, x, y, !fill)));
+                            }
+                            let fresh = {
+                                let mut q = Page::new(PageId(9), w, h);
+                                q.set_all_pixels(fill);
+                                q
+                            };
+                            for xx in [0, x, w - 1] {
+                                for yy in 0..h {
+                                    if p.get_pixel(xx, yy) != fresh.get_pixel(xx, yy) {
+                                        return Ok(Some(format!("after set_all_pixels({}) pixel ({},{}) reads {}", fill, xx, yy, !fill)));
+                                    }
+                                }
+                            }
+                        }
+                        Ok(None)
+                    }));
+                    rep.case(Some(mix(u64::from(w) << 32 | u64::from(h), (pos * 4 + base_lit as usize * 2 + owned as usize) as u64 ^ 0x0E1F)));
+                    let sig = format!("nearly-uniform|{}x{}|{}|{}|{}", w, h, base_lit, pos, owned);
+                    match r {
+                        Ok(Ok(None)) => rep.count("nearly_uniform_pages_filled"),
+                        Ok(Ok(Some(wh))) => rep.violation(MON, "fill_leaves_a_pixel", &sig, format!("{}x{} page over the caller's bytes ({}), {} but for one pixel in byte {} of the pixel area: {}", w, h, if owned { "owned" } else { "borrowed" }, if base_lit { "fully lit" } else { "dark" }, pos, wh), J::obj(vec![("workload", J::s("nearly uniform pages")), ("observed", J::s(wh.clone()))])),
+                        Ok(Err(e)) => rep.violation(MON, "from_bytes_refuses_padded_length", &sig, e.clone(), J::obj(vec![("workload", J::s("nearly uniform pages"))])),
+                        Err(p) => rep.violation(MON, "panic", &sig, format!("panic {} at {}", p.msg, short_loc(&p.loc)), J::obj(vec![("workload", J::s("nearly uniform pages"))])),
+                    }
+                }
+            }
+        }
+    }
+}
+
 pub fn run(ctx: &Ctx) -> Outcome {
     let (bw, bh) = if ctx.quick() { (100u32, 48u32) } else { (256, 136) };
     let mut sizes: Vec<(u32, u32, bool)> = vec![]; // (w, h, sampled pixels only)
@@ -643,6 +707,7 @@ pub fn run(ctx: &Ctx) -> Outcome {
         concurrent_new_pages(if ctx.quick() { 96 } else { 2000 }, &mut at_exit);
         same_coordinate_on_two_pages(&mut at_exit);
         fills_keep_what_is_not_pixels(&mut ctx.rng("fills", 0), &mut at_exit);
+        nearly_uniform_pages(&mut at_exit);
         crate::exitprobe::check_migration("page", MON, &mut at_exit);
         report.merge(at_exit);
     }
@@ -650,6 +715,7 @@ pub fn run(ctx: &Ctx) -> Outcome {
         floor("new pages of 8 different sizes (1 byte .. 1 MiB) built at the same instant on 8 threads, every one checked", report.get("pages_built_while_other_threads_built_other_sizes") >= 8 * 96, report.get("pages_built_while_other_threads_built_other_sizes")),
         floor("the same coordinate set on two pages of different strides one right after the other (42 ordered pairs, every common pixel)", report.get("page_pairs_accessed_at_the_same_coordinates") == 42, report.get("page_pairs_accessed_at_the_same_coordinates")),
         floor("pages over the caller's bytes (arbitrary header and padding, borrowed and owned) filled, cleared and drawn on: nothing outside the pixel area changes", report.get("pages_over_the_callers_bytes_filled_and_drawn_on") == 120, report.get("pages_over_the_callers_bytes_filled_and_drawn_on")),
+        floor("pages that are all one value but for one pixel (in every byte of the pixel area in turn), then filled", report.get("nearly_uniform_pages_filled") > 1_500, report.get("nearly_uniform_pages_filled")),
         floor("every size of the box checked", report.get("box_sizes_done") == box_n as u64, report.get("box_sizes_done")),
         floor("11 real sizes and the tall / wide sizes checked pixel by pixel", report.get("real_sizes_done") == 11 + n_tall as u64, report.get("real_sizes_done")),
         floor("every large size checked", report.get("large_sizes_done") == n_large, report.get("large_sizes_done")),
